@@ -161,6 +161,60 @@ func (r *Run) HasBad(rule string) bool {
 	return false
 }
 
+// Mark returns a position in the record; FailedSince and Retract refer to what was recorded after it.
+func (r *Run) Mark() [2]int { return [2]int{len(r.obls), len(r.floors)} }
+
+func ruleIn(rule string, rules []string) bool {
+	if i := strings.Index(rule, "("); i >= 0 {
+		rule = rule[:i]
+	}
+	for _, x := range rules {
+		if rule == x {
+			return true
+		}
+	}
+	return false
+}
+
+// FailedSince reports whether an obligation (or floor) of one of the rules recorded after the mark is open.
+func (r *Run) FailedSince(m [2]int, rules ...string) bool {
+	for _, o := range r.obls[m[0]:] {
+		if ruleIn(o.Rule, rules) && (o.Status == Violated || o.Status == Undecided) {
+			return true
+		}
+	}
+	for _, f := range r.floors[m[1]:] {
+		if ruleIn(strings.TrimPrefix(f.rule, r.KeyPrefix), rules) && f.got < f.min {
+			return true
+		}
+	}
+	return false
+}
+
+// Retract removes the obligations and floors of the rules recorded after the mark; it is used when a second decision
+// procedure, sound for the same statements, has decided them (the caller records its obligations instead).
+func (r *Run) Retract(m [2]int, rules ...string) int {
+	n := 0
+	keep := r.obls[:m[0]:m[0]]
+	for _, o := range r.obls[m[0]:] {
+		if ruleIn(o.Rule, rules) {
+			n++
+			continue
+		}
+		keep = append(keep, o)
+	}
+	r.obls = keep
+	kf := r.floors[:m[1]:m[1]]
+	for _, f := range r.floors[m[1]:] {
+		if ruleIn(strings.TrimPrefix(f.rule, r.KeyPrefix), rules) {
+			continue
+		}
+		kf = append(kf, f)
+	}
+	r.floors = kf
+	return n
+}
+
 func loadFindings(path string) ([]Finding, error) {
 	b, err := os.ReadFile(path)
 	if err != nil {
